@@ -1217,11 +1217,14 @@ fn designator_to_asg(
         }
         Some(synast::Expr::Identifier(identifier)) => {
             let (sym, typ) = lookup_identifier(&identifier, context);
+            // If the identifier is not declared, `UndefVarError` has been logged by the lookup
+            // (and the type `Undefined` must not be mistaken for a `const` type).
+            let sym = sym.ok()?;
             if typ.is_const() {
-                let const_value = context.get_const_value(sym.unwrap());
-                let width = match u32::try_from(const_value.unwrap()) {
-                    Ok(width) => width,
-                    Err(_) => {
+                // The value is missing if the constant was not initialized with an integer literal.
+                let width = match context.get_const_value(sym).map(u32::try_from) {
+                    Some(Ok(width)) => width,
+                    _ => {
                         context.insert_error(InvalidDesignatorError, &identifier);
                         // It's not clear what value to substitute for the width if we don't have a valid one.
                         // We choose zero.
